@@ -89,8 +89,7 @@ PREV = "ite({c} > 0, {g}[{c} - 1], old(cur_pop(self)))"
 def population_deme(qual, engine_attr, engine_call, gens="metaepoch_generations", counter="epoch_counter", limit="self._generations"):
     prev = PREV.format(c=counter, g=gens)
     return refine(qual, A + "run_metaepoch", locals={gens: "list[list[ref:Individual]]"},
-                  requires=[cl("population", "DemePop(self)"),
-                            cl("engine", f"self.{engine_attr} != None and {limit} >= 1")],
+                  # (no extra precondition: the class invariant of an active deme is part of the tree invariant the abstract contract requires)
                   modifies=OWN_FRAME + USER_PROBLEM_FRAME,
                   loops={0: dict(invariant=deme_loop_invariants(gens, counter, limit))},
                   calls={engine_call: [
